@@ -2,7 +2,7 @@
    Only statements; the model is Cache/CachePolicy.v, the proofs live in Cache/CachePolicyProofs.v.
 
    Reading guide.  Times and durations are ns (Z); [mx] is cacheCtl.maximumTtl (= init_max_ttl of the configured
-   seconds); a history is any list of Tick / Store / Get / Evict events run from the empty backend; the "fetch
+   seconds); a history is any list of Tick / Store / Get / Collect / Evict events run from the empty backend; the "fetch
    instant" of the property is the entry's storedTime (time.Now() inside cacheCtl.Store, as the property's anchor
    says).  [EvStore s eps k (Some m) true] is a Store call at wall time s of the upstream response m under key k whose
    value packed successfully. *)
@@ -223,8 +223,10 @@ Definition ex_hist : list event :=
     EvGet (ms 5900) 1;                                     (* hit, delta 0 *)
     EvStore (ms 6000) 1000 1 (Some ex_nx) true;            (* error response: kept *)
     EvTick 6; EvTick 7; EvGet (ms 7300) 1;                 (* hit, delta 2: TTLs 1, 8, 2^32-3; OPT 32768 untouched *)
-    EvTick 8; EvGet (ms 8250) 1;                           (* clock 8 = 5 + 3: expired -> miss (and deleted) *)
-    EvStore (ms 8300) 1000 1 (Some ex_nx) true;            (* now absent: the error response is stored, 30 s *)
+    EvTick 8; EvGet (ms 8250) 1;                           (* clock 8 = 5 + 3: expired -> miss; the node stays *)
+    EvStore (ms 8300) 1000 1 (Some ex_nx) true;            (* expired but uncollected: set-if-absent still refuses *)
+    EvCollect 1;                                           (* otter's cleanup removes the expired node *)
+    EvStore (ms 8350) 1000 1 (Some ex_nx) true;            (* now absent: the error response is stored, 30 s *)
     EvStore (ms 8400) 1000 1 (Some ex_pos) true;           (* a positive answer replaces it *)
     EvStore (ms 8500) 1000 1 (Some (ex_msg 0 true [3]%N)) true;  (* truncated: skipped *)
     EvStore (ms 8600) 1000 1 None true;                    (* failed exchange never reaches Store; nil is skipped *)
@@ -239,7 +241,7 @@ Definition show (o : out) : list Z :=
 Example C08_example_history :
   map show (snd (run H6 (init_state 0) ex_hist)) =
   [ [0]; [3; 3]; [6; 5200; 8200; 3; 10; 4294967295; 32768]; [4; 30]; [0]; [0];
-    [6; 5200; 8200; 1; 8; 4294967293; 32768]; [0]; [5]; [3; 30]; [3; 3]; [2]; [2];
+    [6; 5200; 8200; 1; 8; 4294967293; 32768]; [0]; [5]; [4; 30]; [1]; [3; 30]; [3; 3]; [2]; [2];
     [6; 8400; 11400; 3; 10; 4294967295; 32768] ] /\
   hist_ok SECOND H6 (init_state 0) ex_hist.
 Proof. split; [vm_compute; reflexivity|]. apply hist_okb_sound. vm_compute. reflexivity. Qed.
